@@ -59,6 +59,14 @@ def gen_npm(tier, rng):
         if k < 0.06: r.insert(rng.randrange(len(r) + 1), ('set', [('garbage', rng.choice(RG.GARBAGE))]))
         elif k < 0.10: r.insert(rng.randrange(len(r) + 1), ('set', []))
         trees.append(r)
+    # the witnesses of the recorded departures and of the repaired defects, always part of the sweep
+    P = lambda xs, tag=(): (list(xs), tuple(tag), ())
+    trees += [[('set', [('<', P([1])), ('>=', P([1, 0, 0], ['alpha']))])],          # D12
+              [('set', [('^', P([0])), ('<', P([0, 0, 0], ['5']))])],               # D13
+              [('set', [('^', P([0, 'x'])), ('>', P([0, 0, 0], ['a']))])],          # D13
+              [('set', [('>=', P([1, 2, 3])), ('<', P([1, 0, 0]))])],               # D4
+              [('set', [('>', P([1, 'x', 3]))])], [('set', [('>=', P(['x', 1, 2]))])],   # D5
+              [('set', [('>', P(['x']))])], [('set', [('<=', P(['x']))])], [('hyphen', P([1]), P(['x']))]]   # D6
     for g in RG.GARBAGE: trees.append([('set', [('garbage', g)])])
     trees.append([('set', [])])
     cases = []; table = {}
